@@ -151,7 +151,7 @@ def walk_envelope(it, data, goals, prefix, depth=0):
 
 
 def _digests_ok(it, ctx):
-    if ctx.outcome != "return":
+    if ctx.outcome != "return" or it.variant_label == "path":
         return None
     goals = []
     walk_envelope(it, ctx.result, goals, "")
